@@ -556,6 +556,8 @@ def tableOk : RNode → Bool
   | .table _ rows n => rowsOk n rows
   | .box _ _ kids => tableOkL kids
   | .cell _ _ kids => tableOkL kids
+  | .row _ cells => tableOkL cells       -- rows and sections outside a table render nothing, but a table collects them
+  | .tbody _ rows => tableOkL rows
   | _ => true
 def tableOkL : List RNode → Bool
   | [] => true
